@@ -20,11 +20,13 @@ from c01 import B
 IDS = [0, 1, 2 ** 53, "", "0", "1", "a"]
 
 
-def _shift(ev, t0, j0):
+def _shift(ev, t0, j0, o0):
     if ev[0] in ("task", "cb"):
         return [ev[0], ev[1] + t0]
     if ev[0] in ("jstart", "jfin"):
         return [ev[0], ev[1] + j0]
+    if ev[0] == "ocancel":
+        return [ev[0], ev[1] + o0]
     return ev
 
 
@@ -41,10 +43,12 @@ def _rename(ev, k):
 
 class C16(c01.C01):
     id = "C16"
-    modules = ["Proofs.EndpointFuts", "Proofs.C16Proofs", "Proofs.OutgoingProofs", "Props.C16"]
+    modules = ["Proofs.EndpointFuts", "Proofs.EndpointXProofs", "Proofs.C16Proofs", "Proofs.OutgoingProofs", "Props.C16"]
     obligations = ["fw_step", "fw_run", "fw_quiescent", "futs_subset_inflight", "table_bounded",
                    "tables_empty_at_quiescence", "osub_step", "outgoing_only_from_sends", "incoming_quiescent_empty",
-                   "table_size_bounded", "C16_incoming", "OutgoingProofs.rtypes_sub", "OutgoingProofs.K_run",
+                   "table_size_bounded", "runx_base", "fw_stepx", "fw_runx", "lax_runx", "at_most_one_reply_x", "inv_stepx",
+                   "tables_empty_st", "table_bounded_st", "outgoing_only_from_sends_x", "incoming_quiescent_empty_x",
+                   "C16_incoming", "C16_nonvacuous_x", "OutgoingProofs.rtypes_sub", "OutgoingProofs.K_run",
                    "OutgoingProofs.C16_outgoing", "C16", "C16_nonvacuous"]
     coq_targets = ["Props/C16.vo", "Extract/ExtractC16.vo"]
     rule = ("one endpoint, one history of n incoming requests over {sync, async, thread} x {return, raise, raise rpc, "
@@ -61,16 +65,22 @@ class C16(c01.C01):
         o = rng.choice([["ret", rng.choice([0, 1, 7])], ["raise"], ["raise"], ["rpc", rng.choice([-32001, 5])], ["unser"]])
         return B(k, o, n=rng.choice([0, 1, 2]), early=rng.random() < 0.2, r=rng.choice(["prop", "prop", "swallow"]))
 
-    def _block(self, rng, cfg):
+    def _block(self, rng, cfg, final=False):
+        """One block: a few requests, cancels by the client ($/cancelRequest), by the server (ServerCancel:
+        cancel() without pop) and - in a final block - by `shutdown` with requests still pending; outgoing
+        requests answered by result / error / duplicate, before or after the caller gave up on them."""
         ids = list(IDS)
         rng.shuffle(ids)
         msgs, used = [], []
-        for _ in range(rng.choice([1, 1, 2, 3])):
+        for _ in range(rng.choice([1, 1, 2, 3]) + (1 if final else 0)):
             i = ids.pop()
             used.append(i)
             x = rng.random()
-            if x < 0.75:
-                m, ps = ["user", self._behav16(rng)], "ok"
+            if x < 0.75 or final:
+                b = self._behav16(rng)
+                if final and rng.random() < 0.7:
+                    b = B(rng.choice(["async", "thread"]), b["o"], n=rng.choice([0, 1, 2]), r=b["r"])
+                m, ps = ["user", b], "ok"
             elif x < 0.85:
                 m, ps = ["command", self._behav16(rng) if rng.random() < 0.8 else None, None], "ok"
             elif x < 0.93:
@@ -80,47 +90,70 @@ class C16(c01.C01):
             msgs.append(["recv", {"t": "req", "id": i, "ver": True, "ps": ps, "m": m, "np": False}])
         for a in range(rng.choice([0, 0, 1, 1, 2])):
             tgt = rng.choice(used) if rng.random() < 0.8 else rng.choice(IDS)
-            msgs.insert(rng.randint(1, len(msgs)),
-                        ["recv", {"t": "notif", "tag": 100 + a, "ver": True, "ps": "ok", "m": ["cancel", tgt]}])
+            pos = rng.randint(1, len(msgs))
+            if rng.random() < 0.5:
+                msgs.insert(pos, ["recv", {"t": "notif", "tag": 100 + a, "ver": True, "ps": "ok", "m": ["cancel", tgt]}])
+            else:
+                msgs.insert(pos, ["scancel", tgt])
         if rng.random() < 0.25:
             msgs.insert(rng.randint(0, len(msgs)),
                         ["recv", {"t": "notif", "tag": 1, "ver": True, "ps": "ok", "m": ["user", self._behav16(rng)]}])
-        for a in range(rng.choice([0, 0, 1, 1, 2])):
+        for a in range(0 if final else rng.choice([0, 0, 1, 1, 2])):
             oid = "o%d" % a
             pos = rng.randint(0, len(msgs))
             msgs.insert(pos, ["send", oid])
             kind = rng.choice(["result", "error", "dup", "dup-error"])
-            resp = [["recv", {"t": "resp", "id": oid, "ver": True, "err": kind in ("error", "dup-error"), "ps": "ok"}]]
+            follow = [["recv", {"t": "resp", "id": oid, "ver": True, "err": kind in ("error", "dup-error"), "ps": "ok"}]]
             if kind.startswith("dup"):
-                resp.append(["recv", {"t": "resp", "id": oid, "ver": True, "err": rng.random() < 0.5, "ps": "ok"}])
-            for r in resp:
+                follow.append(["recv", {"t": "resp", "id": oid, "ver": True, "err": rng.random() < 0.5, "ps": "ok"}])
+            x = rng.random()
+            if x < 0.4:
+                follow.insert(0, ["ocancel", oid])           # the caller gives up, THEN the peer answers
+            elif x < 0.6:
+                follow.append(["ocancel", oid])              # answered, then cancelled
+            for r in follow:
                 pos = rng.randint(pos + 1, len(msgs))
                 msgs.insert(pos, r)
+        if final:
+            # shutdown while requests are pending: it cancels every entry WITHOUT popping it
+            msgs.insert(rng.randint(max(1, len(msgs) - 2), len(msgs)),
+                        ["recv", {"t": "req", "id": ids.pop(), "ver": True, "ps": "ok", "m": ["shutdown", None]}])
+        # the o-th future returned by send_request, in the order of the sends of this block
+        order = [e[1] for e in msgs if e[0] == "send"]
+        msgs = [["ocancel", order.index(e[1])] if e[0] == "ocancel" else e for e in msgs]
         return cfg, msgs
 
     @staticmethod
     def _size(block_evs):
         return sum(1 for e in block_evs if e[0] == "send" or (e[0] == "recv" and e[1]["t"] == "req"))
 
-    def _history(self, chk, cfg, target, gc_every):
-        """Concatenate drained blocks until n + m reaches `target`."""
+    def _history(self, chk, cfg, target, gc_every, shutdown=True):
+        """Concatenate drained blocks until n + m reaches `target`; the last block ends with a `shutdown`
+        that finds requests pending."""
         rng = chk.rng
         nblocks = max(1, int(target / 2.2) + 6)
-        blocks = self._interleave(chk, [self._block(rng, cfg) for _ in range(nblocks)], maxlen=45)
+        scens = [self._block(rng, cfg) for _ in range(nblocks)] + [self._block(rng, cfg, final=True)]
+        blocks = self._interleave(chk, scens, maxlen=50)
         counts = core.run_driver(self.id, [sched.encode_case(b, "counts") for b in blocks])
-        evs, cps, gcs, t0, j0, total = [], [], [], 0, 0, 0
-        for k, (b, cnt) in enumerate(zip(blocks, counts)):
-            nt, nj, q, nf, nr = map(int, cnt)
+        evs, cps, gcs, t0, j0, o0, total = [], [], [], 0, 0, 0, 0
+
+        def add(k, b, cnt):
+            nonlocal t0, j0, o0, total
+            nt, nj, q, nf, nr, no = map(int, cnt)
             if not q or nf or nr:
-                continue                      # the model itself says this block does not end clean: not a checkpoint block
-            evs.extend(_shift(_rename(e, k), t0, j0) for e in b["evs"])
-            t0, j0 = t0 + nt, j0 + nj
+                return False                  # the model itself says this block does not end clean: not a checkpoint block
+            evs.extend(_shift(_rename(e, k), t0, j0, o0) for e in b["evs"])
+            t0, j0, o0 = t0 + nt, j0 + nj, o0 + no
             total += self._size(b["evs"])
             cps.append(len(evs) - 1)
-            if len(cps) % gc_every == 0:
-                gcs.append(len(evs) - 1)
+            return True
+        for k, (b, cnt) in enumerate(zip(blocks[:-1], counts[:-1])):
             if total >= target:
                 break
+            if add(k, b, cnt) and len(cps) % gc_every == 0:
+                gcs.append(len(evs) - 1)
+        if shutdown:
+            add(len(blocks) - 1, blocks[-1], counts[-1])
         if cps and cps[-1] not in gcs:
             gcs.append(cps[-1])
         return {"cfg": cfg, "evs": evs, "checkpoints": cps, "gc": gcs, "n_plus_m": total}
@@ -138,9 +171,9 @@ class C16(c01.C01):
             cfg = {"writer": "awaitable" if a % 2 else "blocking", "hook": ["quiet", "default", "raises"][a % 3], "wfail": None}
             cases.append(self._history(chk, cfg, n, gc_every=1 if n <= 100 else 10))
         # many short histories as well (every block its own endpoint)
-        for _ in range(chk.n(150, 800)):
+        for _ in range(chk.n(110, 800)):
             cfg = {"writer": rng.choice(["blocking", "awaitable"]), "hook": rng.choice(["quiet", "default", "raises"]), "wfail": None}
-            cases.append(self._history(chk, cfg, rng.choice([1, 2, 3, 5]), gc_every=1))
+            cases.append(self._history(chk, cfg, rng.choice([1, 2, 3, 5]), gc_every=1, shutdown=rng.random() < 0.6))
         return cases
 
     # ---------------------------------------------------------------- implementation
